@@ -97,6 +97,8 @@ impl MonotonicTimestampGenerator {
     // This is guaranteed to return a monotonic timestamp. If clock skew is detected
     // then this method will increment the last timestamp.
     fn compute_next(&self, last: i64) -> i64 {
+        #[cfg(scylla_verif)]
+        use crate::verif::SimSystemTime as SystemTime;
         let current = SystemTime::now().duration_since(UNIX_EPOCH);
         if let Ok(cur_time) = current {
             // We have generated a valid timestamp
